@@ -653,3 +653,4 @@ PROP = Prop(
           Sub('misc', body_misc, strategy=case_misc, quick=500, thorough=8000),
           Sub('history', history_body(new_state, apply), machine=machine, quick=150, thorough=2500, steps=(6, 14))],
     design_ref='DESIGN.md section 6, C18')
+PROP.rule += ('. Added in round 2: m + (mirror image of m obtained with scaled((-1, 1, ..)) after moving m to x >= 0): shared vertices are stored as 0.0 in one operand and -0.0 in the other.')
